@@ -156,12 +156,12 @@ Definition ex_stop : event := {| ety := 9 ; eid := 2 ; eattrs := [] |}.
 Definition ex_ticks : list tick :=
   [TAdd {| a_ev := ex_start ; a_att := None ; a_first := None ; a_exn := None ; a_failed := None ; a_rc := [] |} None ;
    TStep 1 0 ex_start [RResult (OEvent ex_stop)]].
-Fixpoint cmds_of (P : policy) (s : state) (ts : list tick) : list (res (list command)) :=
+Fixpoint cmds_of (P : policy) (s : state) (ts : list tick) : list stick :=
   match ts with
   | [] => []
   | t :: r => match reduce P t s 0 with
-              | Err c => [Err c]
-              | Ok (s', cs) => Ok cs :: cmds_of P s' r
+              | Err c => [(is_idlecheck t, Err c)]
+              | Ok (s', cs) => (is_idlecheck t, Ok cs) :: cmds_of P s' r
               end
   end.
 Example C15_example_completed_under_transient_faults :
@@ -183,7 +183,7 @@ Print Assumptions C15_example_completed_under_transient_faults.
 
 (* a reducer exception (retry policy raising): no terminal event, the watcher marks the handler failed *)
 Example C15_example_engine_failure_marked_failed :
-  exists st', server_run 2 [9] [Ok [CPublish (PStep 1 Running (Some 0%nat) 0 NoOut)] ; Err 3] (fresh no_faults)
+  exists st', server_run 2 [9] [(false, Ok [CPublish (PStep 1 Running (Some 0%nat) 0 NoOut)]) ; (false, Err 3)] (fresh no_faults)
               = (st', Some (OEngineExc 3)) /\
               option_map h_status (s_rec st') = Some SFailed /\
               option_map h_error (s_rec st') = Some (Some (EEngine 3)).
